@@ -55,8 +55,8 @@ def evaluate(prop, x, src=None, keep=False, quiet=False):
             pid = json.loads(l)['id']
             rc, out = sh('%s -m sqstatic.run %s --repo %s --evidence-dir %s/ev' % (PY, pid, pat, tmp), cwd=V)
             if rc != 0:
-                lines = [ln.strip() for ln in out.splitlines() if ln.startswith(('  C', 'ANALYSIS-ERROR'))]
-                verdicts[pid] = {'exit': rc, 'lines': lines[:4]}
+                lines = [ln.strip()[:400] for ln in out.splitlines() if ln.startswith(('  C', 'ANALYSIS-ERROR'))]
+                verdicts[pid] = {'exit': rc, 'lines': [l for l in lines if '::' in l or l.startswith('ANALYSIS')][:6]}
         res['alarms'] = verdicts
         res['caught_by_own_property'] = prop in verdicts and verdicts[prop]['exit'] == 1
         res['caught_by'] = sorted(k for k, v in verdicts.items() if v['exit'] == 1)
@@ -66,9 +66,12 @@ def evaluate(prop, x, src=None, keep=False, quiet=False):
         if keep and ok:
             dst = os.path.join(V, 'seeded', '%s-%s' % (prop, x))
             os.makedirs(dst, exist_ok=True)
-            shutil.copy(patch, os.path.join(dst, 'patch.diff'))
-            shutil.copy(demo, os.path.join(dst, 'demo.py'))
+            if os.path.abspath(src) != os.path.abspath(dst):
+                shutil.copy(patch, os.path.join(dst, 'patch.diff'))
+                shutil.copy(demo, os.path.join(dst, 'demo.py'))
             note = open(os.path.join(src, 'note.txt')).read() if os.path.exists(os.path.join(src, 'note.txt')) else ''
+            if not note and os.path.exists(os.path.join(dst, 'meta.json')):
+                note = json.load(open(os.path.join(dst, 'meta.json'))).get('breaks', '')
             meta = {'property': prop, 'breaks': note.strip(), 'needs_to_manifest': 'see breaks / demo.py',
                     'verified': {'repo_head': sh('git -C /repo rev-parse --short HEAD')[1].strip(),
                                  'suite_with_patch': res['tests'], 'demo_with_patch': 'exit != 0: ' + res['demo_output'][-160:],
